@@ -30,6 +30,7 @@ type SiteSpec struct {
 	Lemma    bool   // proved at the site and assumed afterwards
 	Before   bool   // ghost set evaluated before the call executes
 	After    bool   // lemma proved (and then assumed) right after the call, with res bound to its result
+	Iter     bool   // invariant of a callback iteration performed by the callee (at call f: iter-invariant L: e)
 	SetGhost string // `at call f: set $g := expr` (expr may mention res)
 	SetExpr  Expr
 }
@@ -440,6 +441,11 @@ func ParseSpecFile(path string) (*SpecFile, error) {
 			}
 			isLemma := false
 			lemmaAfter := false
+			isIter := false
+			if j := strings.Index(rest, ": iter-invariant "); j >= 0 {
+				rest = rest[:j] + ": assert " + rest[j+len(": iter-invariant "):]
+				isIter = true
+			}
 			i := strings.Index(rest, ": assert ")
 			if i < 0 {
 				// `at call f: lemma L: e` is proved at the site like an assert and, unlike an assert, may be used afterwards
@@ -471,7 +477,7 @@ func ParseSpecFile(path string) (*SpecFile, error) {
 			if err != nil {
 				return nil, fail("%v", err)
 			}
-			curFunc.Sites = append(curFunc.Sites, &SiteSpec{Kind: kind, Callee: callee, Ordinal: ord, Clause: c, Lemma: isLemma, After: lemmaAfter})
+			curFunc.Sites = append(curFunc.Sites, &SiteSpec{Kind: kind, Callee: callee, Ordinal: ord, Clause: c, Lemma: isLemma, After: lemmaAfter, Iter: isIter})
 		case "arith":
 			curFunc.ArithChecked = true
 		case "conv":
@@ -621,7 +627,18 @@ func splitTop(s string, sep byte) []string {
 func parsePure(s string) (*PureDef, error) {
 	i := strings.Index(s, ":=")
 	if i < 0 {
-		return nil, fmt.Errorf("pure needs :=")
+		// `pure f(x T) R` without a body: an uninterpreted function of its arguments
+		head := strings.TrimSpace(s)
+		lp := strings.Index(head, "(")
+		rp := strings.LastIndex(head, ")")
+		if lp < 0 || rp < lp || strings.TrimSpace(head[rp+1:]) == "" {
+			return nil, fmt.Errorf("pure needs := or a result type")
+		}
+		ps, err := parseParams(head[lp+1 : rp])
+		if err != nil {
+			return nil, err
+		}
+		return &PureDef{Name: strings.TrimSpace(head[:lp]), Params: ps, Ret: strings.TrimSpace(head[rp+1:])}, nil
 	}
 	head := strings.TrimSpace(s[:i])
 	lp := strings.Index(head, "(")
